@@ -61,6 +61,17 @@ int bind (int fd, const struct sockaddr *addr, socklen_t len)
   return (int) syscall (SYS_bind, fd, addr, len);
 }
 
+/* sort key of a reported event: the context pointer the driver registered */
+static long ev_key (void *ctx)
+{
+  if ((char *) ctx >= (char *) &external_port[0] && (char *) ctx < (char *) &external_port[5])
+    return 0;
+  for (int i = 0; i < max_users; i++)
+    if (all_users && (void *) all_users[i] == ctx)
+      return 1 + i;
+  return 1000000;
+}
+
 int epoll_wait (int epfd, struct epoll_event *ev, int maxev, int timeout)
 {
   if (in_cycle)
@@ -76,7 +87,24 @@ int epoll_wait (int epfd, struct epoll_event *ev, int maxev, int timeout)
       polled = 1;
       vh_out ("poll %d %s", cycle_no, timeout == 0 ? "now" : "block");
     }
-  return (int) syscall (SYS_epoll_pwait, epfd, ev, maxev, 0, (void *) 0, (size_t) 8);
+  int n = (int) syscall (SYS_epoll_pwait, epfd, ev, maxev, 0, (void *) 0, (size_t) 8);
+  /* The order in which the kernel reports ready descriptors is unspecified.  Make it deterministic (any order is a
+   * legal epoll result): listening ports first, then the users in slot order, everything else last - so that a
+   * connect and a disconnect inside one process_io() can be compared with the model (accept, then the users in table
+   * order). */
+  for (int a = 1; a < n; a++)
+    {
+      struct epoll_event e = ev[a];
+      long ka = ev_key (e.data.ptr);
+      int b = a - 1;
+      while (b >= 0 && ev_key (ev[b].data.ptr) > ka)
+        {
+          ev[b + 1] = ev[b];
+          b--;
+        }
+      ev[b + 1] = e;
+    }
+  return n;
 }
 
 /* ---- helpers -------------------------------------------------------------- */
